@@ -85,6 +85,10 @@ def run(ctx, budget):
     # length-inferred payloads followed directly by other messages
     for _ in range(budget // 4 + 5):
         streams.append(gen.stream(rng, rng.choice([2, 3]), 'GGWV'))
+    for r in fv.corpus('C05') + fv.corpus('C04'):      # regression corpus first
+        if 'stream' in r:
+            one_stream(ctx, bytes.fromhex(r['stream']), 'corpus', r.get('max_payload', 1 << 24), lines, pending)
+            ctx.count('corpus_cases')
     for data, kinds in streams:
         for t in kinds:
             ctx.count('token_' + t)
